@@ -340,6 +340,8 @@ type Plan struct {
 	Faults  []RcvFault `json:"rcv_faults,omitempty"`
 	Holds   []Hold     `json:"holds,omitempty"`
 	Net     *NetPlan   `json:"net,omitempty"`
+	// Vers are crafted versions of replicated records that "deliver" actions refer to.
+	Vers []PVer `json:"vers,omitempty"`
 	// LabelSets are the label sets probes are made for.
 	LabelSets []map[string]string `json:"label_sets,omitempty"`
 	// Params carries property-specific knobs the oracle needs.
@@ -364,10 +366,25 @@ type Partition struct {
 	OneWay bool `json:"one_way,omitempty"`
 }
 
-// PEntry is a crafted notification-log or silence record (states family).
+// PEntry names a crafted record version (states family).
 type PEntry struct {
-	Key  string `json:"key"`
-	Ver  int    `json:"ver"`
+	Key string `json:"key"`
+	Ver int    `json:"ver"`
+}
+
+// PVer is one crafted version of a replicated record. Offsets are from plan start.
+type PVer struct {
+	Key        string            `json:"key"`
+	Ver        int               `json:"ver"`
+	UpdatedOff Dur               `json:"updated_off"`
+	StartOff   Dur               `json:"start_off,omitempty"`
+	EndOff     Dur               `json:"end_off,omitempty"`
+	ExpiresOff Dur               `json:"expires_off,omitempty"`
+	Sets       [][]M             `json:"sets,omitempty"`
+	Comment    string            `json:"comment,omitempty"`
+	Firing     []uint64          `json:"firing,omitempty"`
+	Resolved   []uint64          `json:"resolved,omitempty"`
+	Data       map[string]string `json:"data,omitempty"`
 }
 
 func (p *Plan) SortActions() {
